@@ -145,6 +145,32 @@ def _std_transfer(I, fr, t, c, pth):
     dest = t['dest']
     where = t['span']
 
+    # `vec![a, b, c]`: Box::new_uninit(), the array written through the box's pointer, box_assume_init_into_vec_unsafe(box)
+    if res.startswith('std::boxed::Box::<') and name == 'new_uninit' and not args:
+        I.fresh += 1
+        key_ = ('box', I.fresh)
+        fr.store[key_] = TOP
+        fr.storev(dest, Agg([Agg([Ref(key_, [])])], ('box', 'Box')))
+        return True
+    if (name == 'box_assume_init_into_vec_unsafe' or d.endswith('box_assume_init_into_vec_unsafe')) and len(args) == 1:
+        bx = fr.operand(args[0])
+        ptr = bx.items[0].items[0] if isinstance(bx, Agg) and bx.kind == ('box', 'Box') and bx.items and isinstance(bx.items[0], Agg) and bx.items[0].items else None
+        if isinstance(ptr, Ref):
+            v_ = fr.store.get(ptr.root, TOP)
+            n_ = None
+            try:
+                n_ = int((c.get('targs') or [None, None])[1])
+            except (TypeError, ValueError, IndexError):
+                pass
+            # MaybeUninit { uninit, value: ManuallyDrop { MaybeDangling { [T; N] } } }: the array sits at .1.0.0
+            try:
+                v_ = v_.items[1].items[0].items[0]
+            except (AttributeError, IndexError):
+                v_ = None
+            if isinstance(v_, Agg) and (n_ is None or len(v_.items) == n_):
+                fr.storev(dest, Agg(list(v_.items), ('vec', 'Vec')))
+                return True
+        return False
     # bit counting on words whose leading bits are known (a scalar with a known leading one)
     if name in ('leading_zeros', 'trailing_zeros') and res.startswith('core::num::<impl u') and len(args) == 1:
         v_ = fr.operand(args[0])
@@ -377,7 +403,7 @@ def _std_transfer(I, fr, t, c, pth):
                     elif isinstance(r, Agg):
                         out.extend(r.items)
                     else:
-                        raise NotDerivable('flat_map closure result is not a modelled sequence', where)
+                        raise NotDerivable('flat_map closure result is not a modelled sequence (%r)' % (r,), where)
                 fr.storev(dest, SliceIt(out, 0))
                 return True
             return False
